@@ -87,10 +87,10 @@ fn drain(c: &Case) -> Result<Vec<(usize, String)>, String> {
 impl Prop for C07 {
     type Case = Case;
     const ID: &'static str = "C07";
-    const RULE: &'static str = "1-6 in-memory sources (occasionally up to 14) with lengths 0..=6 (a long profile up to 200; zero only for non-weighted strategies; optionally every k-th item an Err item) x {sequential, interleaved, weighted} x seed; oracle: termination within total+2 calls (step bound; watchdog for calls that never return), exact sequence model for sequential and round-robin, multiset + per-source order + source tag + seed determinism for weighted. Non-trivial: >= 2 sources of unequal length, or an empty source, or a single source with the interleaved strategy. Distinct = distinct serialised case.";
+    const RULE: &'static str = "1-6 in-memory sources (occasionally up to 14, and 63-140 or ~260 short sources) with lengths 0..=6 (a long profile up to 200; zero only for non-weighted strategies; optionally every k-th item an Err item) x {sequential, interleaved, weighted} x seed; oracle: termination within total+2 calls (step bound; watchdog for calls that never return), exact sequence model for sequential and round-robin, multiset + per-source order + source tag + seed determinism for weighted. Non-trivial: >= 2 sources of unequal length, or an empty source, or a single source with the interleaved strategy. Distinct = distinct serialised case.";
     const CLAIMS_TERMINATION: bool = true;
     const HANG_SECS: u64 = 20;
-    const ESSENTIAL: &'static [&'static str] = &["sequential", "interleaved", "weighted", "single_source", "empty_source", "unequal", "interleaved_tail"];
+    const ESSENTIAL: &'static [&'static str] = &["sequential", "interleaved", "weighted", "single_source", "empty_source", "unequal", "interleaved_tail", "more_than_64_sources"];
 
     fn budget(tier: Tier) -> Budget {
         match tier {
@@ -105,6 +105,9 @@ impl Prop for C07 {
                 10 => proptest::collection::vec(0usize..=6, 1..=6),
                 1 => proptest::collection::vec(0usize..=200, 1..=4),
                 1 => proptest::collection::vec(0usize..=5, 7..=14),
+                // many sources (more than 64, 128, 256: word-size and table-size boundaries)
+                1 => prop_oneof![Just(63usize), Just(64), Just(65), Just(66), 67usize..=140, 250usize..=270]
+                    .prop_flat_map(|n| proptest::collection::vec(0usize..=3, n)),
             ],
             0u8..3,
             prop_oneof![0u64..8, any::<u64>()],
@@ -146,6 +149,7 @@ impl Prop for C07 {
             _ => "weighted",
         });
         out.label_if(n == 1, "single_source");
+        out.label_if(n > 64, "more_than_64_sources");
         out.label_if(c.lengths.iter().any(|l| *l == 0), "empty_source");
         let unequal = c.lengths.iter().any(|l| *l != c.lengths[0]);
         out.label_if(unequal, "unequal");
